@@ -1272,7 +1272,9 @@ class History:
         try:
             if form == "unit_system_id-name":
                 name = s.reg.unit_system_id
-                if name in self.C.us.unit_system_registry and name not in self.C.usys_allowed:
+                if name in self.C.us.unit_system_registry:
+                    # (also when this history created it earlier: constructing a system under an existing name re-binds the
+                    #  entry by design - that would be the harness changing the unit-system table, not a leak)
                     return {"detail": "id taken"}
             else:
                 name = self.C.unique("c13sys")
